@@ -6,6 +6,9 @@ ids = [p['id'] for p in props]
 
 ENGINES = [
  {"name":"codec","path":"harness/src/codec.rs","serves_properties":["C05","C06"],"kind_free_text":"bounded-exhaustive enumeration of a finite input alphabet against independent reference encoder/decoder"},
+ {"name":"query","path":"harness/src/query.rs","serves_properties":["C09","C10"],"kind_free_text":"explicit-state BFS over event histories on the real FindNodeQuery / PredicateQuery / QueryPool with explicit time"},
+ {"name":"filter","path":"harness/src/filter.rs","serves_properties":["C18"],"kind_free_text":"explicit-state BFS of the real Limiter against an exact token bucket; full path enumeration; history-replay BFS of the real packet Filter with the global permit/ban list"},
+ {"name":"ssim","path":"harness/src/ssim.rs","serves_properties":["C14","C20"],"kind_free_text":"real Discv5/Service over a scripted handler (feature-gated early return in Handler::spawn); event histories enumerated exhaustively"},
  {"name":"table","path":"harness/src/table.rs","serves_properties":["C07","C08","C16"],"kind_free_text":"explicit-state BFS over operation histories on the real KBucketsTable (history replay, canonical fingerprints)"},
 ]
 
@@ -26,6 +29,22 @@ CHECKS = {
  "C16": ("model_checking","explicit-state BFS over operation histories on the real table with the real IP filters; limits checked in every state","table",
    "All operation sequences up to the stated depth from seeds with 8/9/10 nodes of the contended /24 and a full bucket with/without a pending candidate: inserts into same/other/full bucket, record updates moving nodes between subnets (stored and pending), status changes, removals, time passing, iteration; per-bucket (2) and per-table (10) /24 limits evaluated after every call.",
    "Every record is signed by a key bound to exactly one crafted table key; harness-owned clock.","3/C16"),
+
+ "C09": ("model_checking","explicit-state BFS over event histories on the real query state machines and QueryPool (history replay), ledger oracle, every state run to completion","query",
+   "All histories up to the stated depth over {poll, success(p, reported set), failure(p), peer timeout, query timeout} for plain and predicate lookups, stand-alone and inside the real QueryPool, over initial candidate sets, parallelism and result counts; an independent ledger decides in-flight counts and repeated issuance; every explored state is additionally driven to completion (termination / exactly-once result).",
+   "Component level; parallelism rule is the conservative form stated in DESIGN.md (a stall needs at least `parallelism` answered requests).","3/C09"),
+ "C10": ("model_checking","same search as C09; result clauses evaluated at every finished / timed-out state","query",
+   "At every finished or cut-off state reached by the C09 search (and its completions): at most k results, distinct, strictly increasing XOR distance, each answered the request, predicate results reported with a satisfying record, and completeness when fewer than k are returned.",
+   "Component level; accepts the constructor's truncation of the initial candidates to k.","3/C10"),
+ "C14": ("exploration","exhaustive enumeration of (table content x request) pairs on the real Service over a scripted handler, wire size measured with the real session encryption and packet codec","ssim",
+   "For every combination of max_nodes_response, fill of the three populated buckets, record size (minimal / 300 bytes / sizes straddling the split threshold), distance list, request id length and requester (unknown v4/v6, stored in a requested bucket) the NODES packets emitted by the real Service are checked: exact record set, own record iff 0, never the requester, cap, common id, total = packet count, wire size <= 1280; PINGs from several sources before/after a sequence bump.",
+   "Only the three highest buckets can be populated with real keys; lower distances are requested but empty.","3/C14"),
+ "C18": ("model_checking","explicit-state BFS of the real Limiter vs an exact token bucket, exhaustive path enumeration, history-replay BFS of the real Filter with all 16 ban/permit combinations","filter",
+   "Every decision of the real GCRA limiter equals an exact token bucket on all event sequences to the stated depth (bursts 1..3, two keys, half-period grid, prune calls anywhere); on every path the pass log obeys burst + rate x window and removing prune events changes nothing; the real packet Filter (real RateLimiter, global permit/ban list) agrees with a two-stage reference on decisions, ban-list contents and ban expiry for all 16 ban/permit combinations.",
+   "Half-token-period time grid; heuristics max_nodes_per_ip / max_bans_per_ip disabled; single process, list reset per execution.","3/C18"),
+ "C20": ("model_checking","explicit-state BFS over all interleavings of deliver/respond/drop/shutdown on the real Service with a scripted handler","ssim",
+   "All interleavings of three concurrently delivered TALK requests (two peers, one reused id), respond / drop / hold per request object and shutdown at any point, on the real Discv5: exactly one TALKRESP per request with the right id, address and payload while running; no panic and an error value after shutdown. The graph is finite and explored completely.",
+   "The scripted handler drops its receiver when told to exit, as the real one does.","3/C20"),
 }
 
 NA_REASON = "check not built yet (work in progress; see DESIGN.md for the planned engine)"
